@@ -257,6 +257,12 @@ func (f *Frame) stdBuiltin(name string, fn *ssa.Function, args []*Value, c *ssa.
 		return term(args[0].T, sInt, timeT()), true
 	case "time.Unix":
 		return term(app("+", app("*", args[0].T, "1000000000"), args[1].T), sInt, timeT()), true
+	case "time.Time.In":
+		return term(args[0].T, sInt, timeT()), true // the same instant
+	case "time.Time.Year":
+		return term(app("yearOf", args[0].T), sInt, types.Typ[types.Int]), true
+	case "time.Time.AddDate":
+		return term(app("addDate", args[0].T, args[1].T, args[2].T, args[3].T), sInt, timeT()), true
 	case "time.Duration.Seconds":
 		return term(app("i2f", app("div", args[0].T, "1000000000")), sF64, types.Typ[types.Float64]), true
 	case "math.IsInf":
